@@ -46,6 +46,11 @@ def analyse(case, res):
     if res.outcome in ("deadlock", "livelock", "runaway"):
         fails.append(Failure("C14.hang", f"C14.hang|{shape}",
                              f"{sid} failed ({kind}) at request {f['req']} ({res.fault_fired[3]}): run() ended in {res.outcome}"))
+    local_held = [h for h in res.held if transport.get(h) != "mem"]
+    if res.shutdown_hang and local_held and case.get("schedule", {}).get("shutdown") == "hold":
+        # shutdown waits for the answer of an in-process simulator that the schedule withholds forever (a
+        # forwarded asynchronous get_data): that simulator is not "always answering", nothing to judge
+        return [], False, ["local_simulator_never_answers_not_judged"]
     if res.shutdown_hang:
         fails.append(Failure("C14.shutdown_hang", f"C14.shutdown_hang|{shape}|{res.shutdown_hang}",
                              f"shutdown after the failure of {sid} did not finish ({res.shutdown_hang})"))
@@ -116,6 +121,16 @@ def base_scenarios():
                 if mode == "mem" or (mode == "mixed" and i % 2 == 0):
                     sm["transport"] = "mem"
             out.append((f"{n}_{mode}", s))
+    # controller + agents with asynchronous requests: the forwarded get_data / set_data are requests, too
+    from mvf.props import c16
+    for tr in ([0, 0], [1, 1], [1, 0]):
+        for a_mem in (False, True):
+            for cache in (True, False):
+                s = c16.build(2, [1], [[1], [2]], [[1], [1, 0]], [[1], [1]], tr, until=3)
+                s["world"]["cache"] = cache
+                if a_mem:
+                    s["sims"][0]["transport"] = "mem"
+                out.append((f"async_{tr}_{a_mem}_{cache}", s))
     return out
 
 
